@@ -305,6 +305,8 @@ type optError struct{ msg string }
 
 func (e *optError) Error() string { return e.msg }
 
+func isOptError(err error) bool { _, ok := err.(*optError); return ok }
+
 // judge checks every clause of the statement on one observation
 func judge(s1, s2 string, sub subFn, open, ext float64, ob obs, withBrute bool) (in info, err error) {
 	// --- validity
@@ -400,86 +402,6 @@ func judge(s1, s2 string, sub subFn, open, ext float64, ob obs, withBrute bool) 
 		}
 	}
 	return in, nil
-}
-
-// ---- known finding "sw-border-gap-state" (see FINDINGS.md) ------------------------------------
-//
-// Signature: the optimum is lost exactly when the affine gap state is forgotten on the first row /
-// first column of the dynamic program after a fresh start (a positive pair score that beats the
-// running gap). borderShortcut is a model of that shortcut, used ONLY to recognise the signature of
-// the listed finding, never as the oracle: a case is set aside when KNOWN_FINDINGS.txt lists the key,
-// the optimality clause fails, the shortcut optimum is lower than the Gotoh optimum and the
-// reported score is the shortcut optimum.
-const borderKey = "sw-border-gap-state"
-
-func borderShortcut(x, y string, sub subFn, open, ext float64) float64 {
-	n, m := len(x), len(y)
-	neg := math.Inf(-1)
-	h := make([][]float64, n)
-	e := make([][]float64, n) // alignment ending with a gap in x (horizontal)
-	f := make([][]float64, n) // alignment ending with a gap in y (vertical)
-	for i := range h {
-		h[i], e[i], f[i] = make([]float64, m), make([]float64, m), make([]float64, m)
-	}
-	best := 0.0
-	border := func(i, j int, prevH float64, prevGapped, first bool) (float64, bool) {
-		match := sub(x[i], y[j])
-		fnew := 0.0
-		if !first {
-			if prevGapped {
-				fnew = prevH + ext
-			} else {
-				fnew = prevH + open
-			}
-		}
-		switch {
-		case match > fnew && match > 0:
-			return match, false
-		case fnew > 0:
-			return fnew, true
-		}
-		return 0, false
-	}
-	gapped := false
-	for j := 0; j < m; j++ {
-		prev := 0.0
-		if j > 0 {
-			prev = h[0][j-1]
-		}
-		h[0][j], gapped = border(0, j, prev, gapped, j == 0)
-		e[0][j], f[0][j] = neg, neg
-	}
-	gapped = false
-	for i := 0; i < n; i++ {
-		prev := 0.0
-		if i > 0 {
-			prev = h[i-1][0]
-		}
-		h[i][0], gapped = border(i, 0, prev, gapped, i == 0)
-		e[i][0], f[i][0] = neg, neg
-	}
-	for i := 0; i < n; i++ {
-		for j := 0; j < m; j++ {
-			if i > 0 && j > 0 {
-				e[i][j] = math.Max(h[i][j-1]+open, e[i][j-1]+ext)
-				f[i][j] = math.Max(h[i-1][j]+open, f[i-1][j]+ext)
-				h[i][j] = math.Max(math.Max(0, h[i-1][j-1]+sub(x[i], y[j])), math.Max(e[i][j], f[i][j]))
-			}
-			if h[i][j] > best {
-				best = h[i][j]
-			}
-		}
-	}
-	return best
-}
-
-// knownBorder: the failure err of judge carries exactly the signature of the listed finding
-func knownBorder(err error, s1, s2 string, sub subFn, open, ext float64, ob obs) bool {
-	if _, isOpt := err.(*optError); !isOpt || !pbt.Known(borderKey) {
-		return false
-	}
-	short := borderShortcut(s1, s2, sub, open, ext)
-	return short < gotoh(s1, s2, sub, open, ext) && ob.Score == short
 }
 
 func classify(o *pbt.Outcome, s1, s2 string, sch scheme, in info) {
@@ -640,14 +562,7 @@ func checkSW(c swCase) (o pbt.Outcome, err error) {
 		}
 	}
 	if err != nil {
-		for _, t := range tables {
-			if knownBorder(firstErr, c.S1, c.S2, c.Sch.sub(t), c.Sch.Open, c.Sch.Extend, ob) {
-				o.Exclude(borderKey)
-				o.Class("known:" + borderKey + " (optimality not judged)")
-				return o, nil
-			}
-		}
-		if openAlphabet && c.Sch.Matrix && strings.HasPrefix(firstErr.Error(), "reported score") && !(allIn(c.S1, dnaTable) && allIn(c.S2, dnaTable)) {
+		if openAlphabet && c.Sch.Matrix && isOptError(firstErr) && !(allIn(c.S1, dnaTable) && allIn(c.S2, dnaTable)) {
 			// a nucleotide reading with a letter outside EDNAFULL (X): no reference score exists
 			o.Ambiguous++
 			o.Class("alphabet-open:not-judged")
@@ -828,30 +743,6 @@ func TestMatrixEntries(t *testing.T) {
 	})
 }
 
-// the listed finding's repro: prints KNOWN-FINDING while it still fails, nothing once repaired
-func TestKnownFindings(t *testing.T) {
-	c := swCase{S1: "ER", S2: "EDAR", Kind: "aa", Sch: scheme{Matrix: true, Open: -3.5, Extend: -0.5}}
-	ob, _, _, _, e := runLibrary(c)
-	if e != nil {
-		t.Fatalf("repro of %s: %v", borderKey, e)
-	}
-	_, err := judge(c.S1, c.S2, c.Sch.sub(protTable), c.Sch.Open, c.Sch.Extend, ob, false)
-	var o pbt.Outcome
-	o.Class("repro:" + borderKey)
-	if err != nil {
-		if !pbt.Known(borderKey) {
-			pbt.Fail(t, c, "%v", err)
-			return
-		}
-		pbt.KnownFinding(t, borderKey, fmt.Sprintf("ER / EDAR, BLOSUM62, open -3.5, extend -0.5: %v", err))
-		o.Exclude(borderKey)
-	} else {
-		o.NonTrivial = true
-	}
-	pbt.Note(t, c, o)
-	pbt.Complete(t)
-}
-
 // ---- (b) random pairs related by mutation ------------------------------------------------------
 
 func genScheme(t *rapid.T) scheme {
@@ -965,10 +856,10 @@ func TestRandom(t *testing.T) { pbt.Run(t, genSW, checkSW) }
 // ---- the inputs are left unmodified: both algorithms, error paths included --------------------
 
 type inputCase struct {
-	S1   string `json:"s1"`
-	S2   string `json:"s2"`
-	ATG  bool   `json:"atg"` // the reversed variant of the same aligner (ALIGN_ALGO_ATG)
-	Sch  scheme `json:"scheme"`
+	S1  string `json:"s1"`
+	S2  string `json:"s2"`
+	ATG bool   `json:"atg"` // the reversed variant of the same aligner (ALIGN_ALGO_ATG)
+	Sch scheme `json:"scheme"`
 }
 
 func TestInputsUnmodified(t *testing.T) {
@@ -1223,11 +1114,6 @@ func TestCLI(t *testing.T) {
 		s1, s2 := c.Seqs[0].Seq, c.Seqs[1].Seq
 		info, jerr := judge(s1, s2, c.Sch.sub(tb), c.Sch.Open, c.Sch.Extend, ob, len(s1) <= 3 && len(s2) <= 3)
 		if jerr != nil {
-			if knownBorder(jerr, s1, s2, c.Sch.sub(tb), c.Sch.Open, c.Sch.Extend, ob) {
-				o.Exclude(borderKey)
-				o.Class("known:" + borderKey + " (optimality not judged)")
-				return o, nil
-			}
 			return o, fmt.Errorf("goalign %v: %v", args, jerr)
 		}
 		classify(&o, s1, s2, c.Sch, info)
